@@ -362,7 +362,13 @@ def classify_doc_failure(doc, diff):
         return {"kind": "doc-roundtrip", "function": "parse_asm", "shape": "exception"}, None
     if diff.endswith("only in document ['asm']") or "/asm: " in diff and "null" in diff:
         return {"kind": "doc-roundtrip", "function": "AsmContract.to_json", "shape": "asm-null"}, None
-    return {"kind": "doc-roundtrip", "function": "to_json", "shape": diff.split(":")[0].split("/")[-1]}, None
+    if ": keys only in output" in diff:
+        shape = "keys" + diff.split(": keys", 1)[1][:80]
+    elif ": length " in diff:
+        shape = "length of " + ([x for x in diff.split(": length ")[0].split("/") if not x.isdigit()] or ["?"])[-1]
+    else:
+        shape = "value of " + ([x for x in diff.rsplit(": ", 1)[0].split("/") if not x.isdigit()] or ["?"])[-1][:40]
+    return {"kind": "doc-roundtrip", "function": "to_json", "shape": shape}, None
 
 
 def bc_eq_list(a, b):
@@ -876,7 +882,7 @@ def check(run):
                         seen_items[k] = it
         item_list = list(seen_items.values())
         rng.shuffle(item_list)
-        item_list = item_list[:(600 if quick else 6000)]
+        item_list = item_list[:(600 if quick else 2500)]
         for it in item_list:
             p0 = rng.random() < 0.5
             st = rng.choice([[], [], ["lib.sol:L0"], ["a", "b"]])
@@ -886,7 +892,7 @@ def check(run):
         dist["shipped_items_distinct_through_model"] = len(item_list)
 
         # ---- (b) generated documents
-        n_docs = 40 if quick else 400
+        n_docs = 40 if quick else 200
         streams = collections.Counter()
         for i in range(n_docs):
             r = rng.random()
@@ -921,7 +927,7 @@ def check(run):
 
         # generated items with pushlib state
         kinds_it = collections.Counter()
-        for i in range(150 if quick else 1500):
+        for i in range(150 if quick else 800):
             it = gen_item(rng, {}, kinds_it)
             if rng.random() < 0.25:
                 it.pop(rng.choice(list(it)), None)
@@ -957,7 +963,7 @@ def check(run):
         dist["opcode_names"] = {"checked": len(names), "known": sum(exp_known)}
 
         # ---- (c) text: canonical blocks, spellings, malformed
-        n_txt = 150 if quick else 1500
+        n_txt = 150 if quick else 700
         rt_fail = 0
         for i in range(n_txt):
             p0 = rng.random() < 0.5
@@ -974,7 +980,7 @@ def check(run):
                                 "shape": why.split(":")[0]},
                            what="parse_plain(to_plain(b)) != b for a canonical tag-free block: %r %s" % (tt, why[:150]),
                            replay={"kind": "text", "push0": p0, "text": t, "command": "./check C15 --replay <this file>"})
-        consts = list(BOUNDARY) + [rand_const(rng) for _ in range(6 if quick else 80)]
+        consts = list(BOUNDARY) + [rand_const(rng) for _ in range(6 if quick else 40)]
         sp_kinds = collections.Counter()
         for c in consts:
             for t, kind in spellings(c):
@@ -1035,6 +1041,15 @@ def check(run):
                 continue
             _, kind, meta, case = b
             mv = cases.model_value(case)
+            # failing-input search: the disagreeing input evaluated against the property predicate
+            witness = search_failing_input(run, kind, meta)
+            if witness is not None:
+                run.report(key={"kind": "correspondence+property", "level": kind, "shape": witness["why"].split(":")[0][:60]},
+                           what="model and implementation disagree (%s) and the input violates the property: %s"
+                                % (kind, witness["why"][:200]),
+                           replay=dict(witness, model_says=mv, command="./check C15 --replay <this file>"),
+                           found_input=True)
+                continue
             run.report(key={"kind": "correspondence", "level": kind},
                        what="model and implementation disagree (%s): %s" % (kind, json.dumps(meta, default=str)[:200]),
                        replay={"kind": "correspondence", "level": kind, "meta": meta, "model_says": mv,
@@ -1065,6 +1080,36 @@ def check(run):
             run.add_sample({"kind": c[0], "model_expr": c[1][:300], "expected": c[2][:300]})
     finally:
         shutil.rmtree(scratch(run), ignore_errors=True)
+
+
+def search_failing_input(run, kind, meta):
+    """Evaluate the property on the input of a disagreeing correspondence case.  Returns a replay
+    dict (kind doc/text) when the implementation violates the property on it, else None."""
+    try:
+        if kind == "item" and isinstance(meta.get("item"), dict):
+            it = meta["item"]
+            if not all(k in it for k in ("begin", "end", "name", "source")):
+                return None          # not a solc-shaped item: no claim
+            doc = {"contracts": {"c.sol:C": {"asm": {".code": [it], ".data": {}}}}, "version": "v"}
+            d = doc_property(run, meta["p0"], doc)
+            return None if d is None else {"kind": "doc", "push0": meta["p0"], "document": doc, "why": d}
+        if kind == "doc" and isinstance(meta.get("doc"), dict) and str(meta.get("stream", "")).startswith("shaped"):
+            d = doc_property(run, meta["p0"], meta["doc"])
+            return None if d is None else {"kind": "doc", "push0": meta["p0"], "document": meta["doc"], "why": d}
+        if kind in ("text", "text-rt", "text-asm") and "text" in meta and not meta.get("malformed"):
+            p0 = meta.get("p0", False)
+            if "constant" in meta:
+                v = spelling_value(p0, meta["text"])
+                if v != meta["constant"]:
+                    return {"kind": "spelling", "push0": p0, "text": meta["text"], "constant": meta["constant"],
+                            "why": "spelling read as %r" % (v,)}
+                return None
+            nb, fails = text_property(p0, meta["text"])
+            if fails and "corpus" not in meta:
+                return {"kind": "text", "push0": p0, "text": meta["text"], "why": "plain round trip: %s" % (fails[0][1],)}
+    except EXC:
+        return None
+    return None
 
 
 # --------------------------------------------------------------------------
@@ -1115,11 +1160,14 @@ def replay(run, path):
             if rp.get("document") is None:
                 print("replay: document too large to store; origin:", rp.get("origin"))
                 return 2
-            d = doc_property(run, rp["push0"], rp["document"])
-            print("to_json(parse(D)) vs D (push0=%s):" % rp["push0"], "EQUAL" if d is None else "DIFFERS at " + d)
-            return 0 if d is None else 1
+            rc = 0
+            for p0 in ([rp["push0"]] if "push0" in rp else [False, True]):
+                d = doc_property(run, p0, rp["document"])
+                print("to_json(parse(D)) vs D (push0=%s):" % p0, "EQUAL" if d is None else "DIFFERS at " + d)
+                rc = rc or (0 if d is None else 1)
+            return rc
         if kind == "text":
-            nb, fails = text_property(rp["push0"], rp["text"])
+            nb, fails = text_property(rp.get("push0", False), rp["text"])
             print("parse_plain(to_plain(b)) vs b on %d block(s):" % nb, "EQUAL" if not fails else "DIFFERS %s" % fails)
             return 0 if not fails else 1
         if kind == "spelling":
